@@ -14,7 +14,7 @@ Definition fu := (float * string)%type.
 Record row := { r_time : fu; r_pos : list fu; r_spd : list fu; r_acc : list fu; r_tq : list fu; r_dtq : list fu; r_ltq : list fu; r_pwm : float; r_cur : option fu }.
 (** what gearpy did: returned, with the history on record at the end and the solver's flag; or raised, with the instants it had
     completely recorded since the last reset *)
-Inductive expect := EHist (rows : list row) (locked : bool) | EErr (e : exn) (part : list row).
+Inductive expect := EHist (rows : list row) (locked : option bool) | EErr (e : exn) (part : list row).      (* locked: the solver's private flag when it can be read *)
 
 Record scase := { k_chain : @chain FX; k_load : @loadexpr FX; k_pos0 : fqty; k_spd0 : fqty; k_ops : list (@sop FX);
                   k_more : list (@loadexpr FX * list (@sop FX));      (* further segments after the user re-declared the external torque *)
@@ -146,7 +146,8 @@ Definition case_code (k : scase) : N * N :=
           | None, EHist rows locked =>
               if negb (Nat.eqb nh np) then (11, 0)%N else
               let ci := rows_code cur rows 0 in
-              if negb (N.eqb (fst ci) 0) then ci else if Bool.eqb (y_locked stp) locked then (0, 0)%N else (10, 0)%N
+              if negb (N.eqb (fst ci) 0) then ci else
+              match locked with Some b => if Bool.eqb (y_locked stp) b then (0, 0)%N else (10, 0)%N | None => (0, 0)%N end
           | None, EErr _ part =>                      (* gearpy raised, the model did not: compare what gearpy had recorded in that segment *)
               let ci := if Nat.eqb nh np then rows_code_common cur part 0 else rows_code_common (nth np hs []) part 0 in
               if negb (N.eqb (fst ci) 0) then ci else (13, 0)%N
